@@ -1,4 +1,4 @@
-// Package merrgroup replaces golang.org/x/sync/errgroup (Group with WithContext/Go/Wait, no limit).
+// Package merrgroup replaces golang.org/x/sync/errgroup (WithContext, Go, TryGo, SetLimit, Wait).
 package merrgroup
 
 import (
@@ -7,16 +7,26 @@ import (
 	"github.com/ddddddO/gtree/verifmc/msync"
 )
 
+type token struct{}
+
 type Group struct {
 	cancel  func(error)
 	wg      msync.WaitGroup
 	errOnce msync.Once
 	err     error
+	sem     *mc.Chan[token]
 }
 
 func WithContext(ctx mctx.Context) (*Group, mctx.Context) {
 	ctx, cancel := mctx.WithCancelCause(ctx)
 	return &Group{cancel: cancel}, ctx
+}
+
+func (g *Group) done() {
+	if g.sem != nil {
+		g.sem.Recv()
+	}
+	g.wg.Done()
 }
 
 func (g *Group) Wait() error {
@@ -27,10 +37,9 @@ func (g *Group) Wait() error {
 	return g.err
 }
 
-func (g *Group) Go(f func() error) {
-	g.wg.Add(1)
+func (g *Group) run(f func() error) {
 	mc.Go(func() {
-		defer g.wg.Done()
+		defer g.done()
 		if err := f(); err != nil {
 			g.errOnce.Do(func() {
 				g.err = err
@@ -40,4 +49,35 @@ func (g *Group) Go(f func() error) {
 			})
 		}
 	})
+}
+
+// Go blocks until a slot is free when a limit is set.
+func (g *Group) Go(f func() error) {
+	if g.sem != nil {
+		g.sem.Send(token{})
+	}
+	g.wg.Add(1)
+	g.run(f)
+}
+
+// TryGo starts f only if a slot is free; it reports whether it did.
+func (g *Group) TryGo(f func() error) bool {
+	if g.sem != nil {
+		s := mc.Select(true, mc.SendCase(g.sem, token{}))
+		if s.Idx != 0 {
+			return false
+		}
+	}
+	g.wg.Add(1)
+	g.run(f)
+	return true
+}
+
+// SetLimit limits the number of active goroutines (negative: no limit).
+func (g *Group) SetLimit(n int) {
+	if n < 0 {
+		g.sem = nil
+		return
+	}
+	g.sem = mc.NewChan[token](n)
 }
